@@ -28,6 +28,7 @@ EXPLANATION = (
 RULES = {
     "R3.1": "synchronous kernels: identity scan carry, broadcast operands, and no batch index surviving un-batching (slot outputs depend on their own slot only)",
     "R3.2": "every result of a pmapped callable is consumed only by _unbatch_results",
+    "R3.3": "pad/strip pairing and slot accounting of BatchProcessor (the instances of C18 R18.1 / R18.2): padding only after the states, exactly n_pad rows stripped from the end, slots == states + padding",
     "R3.4": "semi-async: carried values are scattered under where(mask, old, new) with mask = (arange(dev*batch*slot) >= n_states) reshaped like the states, mask paired with its own rows",
 }
 ASSUMPTIONS = [
@@ -75,9 +76,38 @@ def run(ctx: Context, col) -> None:
         col.add("R3.1", f"{cname}.{meth}", owner.module.relpath, fn.lineno, ok, why, text="slot-wise non-interference")
     _taint(ctx, col)
     _mask(ctx, col)
+    _pad_strip(ctx, col)
+    col.floor("R3.3", 5)
     col.floor("R3.1", 8)
     col.floor("R3.2", 5)
     col.floor("R3.4", 2)
+
+
+class _Relabel:
+    """Collector view that files C18's batching instances under R3.3."""
+
+    def __init__(self, col):
+        self.col = col
+
+    def add(self, rule, *a, **k):
+        if rule in ("R18.1", "R18.2"):
+            return self.col.add("R3.3", *a, **k)
+        return True
+
+    def floor(self, *a):
+        pass
+
+    def saw(self, *a):
+        pass
+
+    def __getattr__(self, n):
+        return getattr(self.col, n)
+
+
+def _pad_strip(ctx, col):
+    from . import c18
+
+    c18.run(ctx, _Relabel(col))
 
 
 def _pmapped_attrs(ctx):
